@@ -99,7 +99,13 @@ def run(tier, seed):
             s2["account"] = {"domain": c2["domain"], "user": c2["user"], "password": c2["password"]}
             s2["reply"]["sel"] = [2 if c2["nla"] else 1, 0, 0, 0]
             if srv_change: s2.update(srv_change)
+            # only the builder calls that change something are made between the two connections (and, every other time,
+            # all of them): what the calls NOT made had set stays, what the first connection did leaves no trace
+            calls = sorted({{"password": "credentials", "user": "credentials", "domain": "credentials"}.get(f, f) for f in change})
+            calls = [x for x in calls if x != "hash"] + (["hash"] if "hash" in calls else [])
             q["then"] = {"cfg": c2, "srv": s2}
+            if k4 % 4:
+                q["then"]["apply"] = calls
             q["srv"]["activations"] = 0
             plans.append(q)
         for first in nla_plans[:3]:
@@ -111,6 +117,14 @@ def run(tier, seed):
             again(first, {"nla": False}, tag="-nla-off")
             again(first, {"auto": not first["cfg"]["auto"]}, tag="-auto")
             again(first, {"hash": True, "password": other_pw}, tag="-hash-new-password")
+        # a CHALLENGE that leaves out options the client asked for (no seal, no sign, no extended session security, 56-bit):
+        # whatever the server selects, the credentials leave the client sealed - a server cannot talk them into clear text
+        for j, first in enumerate(nla_plans[:2] + [p for p in conn.last_mode_plans if p["cfg"]["nla"] and p["srv"]["reply"]["sel"][0] == 2 and p["cfg"]["hash"] and not p["cfg"]["admin"] and not p["cfg"]["blank"]][:1]):
+            for name, clear in (("noseal", 0x20), ("nosign", 0x10), ("noseal_nosign", 0x30), ("noess", 0x00080000), ("no128", 0x20000000), ("no56_no128", 0xA0000000), ("noalwayssign", 0x8000)):
+                q = json.loads(json.dumps(first))
+                q["id"] = "weakflags-%s-%d" % (name, j)
+                q["srv"]["ntlm_flags"] = 0xE28A8235 & ~clear
+                plans.append(q)
         for first in ssl_plans[:2]:
             again(first, {"nla": True}, tag="-nla-on")
             again(first, {"nla": True, "hash": True}, tag="-nla-hash")
